@@ -752,8 +752,10 @@ def oracle(case):
                 for l in CONTINUATION:
                     gg.add_line(l)
             std = set("HSEFGOU#")
-            a = [str(x) for x in g.lines if x.record_type not in std]
-            b = [str(x) for x in twin.lines if x.record_type not in std]
+            # (at level 0 the texts are compared modulo the spelling of the delayed-parsing fields, which a read switches)
+            cn = M.canon_text if v == 0 else (lambda t: t)
+            a = [cn(str(x)) for x in g.lines if x.record_type not in std]
+            b = [cn(str(x)) for x in twin.lines if x.record_type not in std]
             if a != b:
                 F.append("future-differs[custom-records]: (%s) after the questions and then adding %r the Gfa writes %r, a twin "
                          "that was never asked writes %r" % (where, CONTINUATION, a, b))
